@@ -223,4 +223,47 @@ theorem scan_candidates (key : K) (h2w : BitVec 64) (b : BucketOf K V) (fuel : N
   apply scan_ge _ 8 fuel hf
   rw [searchBucket, eq_mk5 _ (candidates_bits h2w b.metaw), scan_mk5, Option.join_some]
 
+/-! ### `Map`: the top-hash filter -/
+
+theorem testM_marked (hashOf : K → BitVec 64) (key : K) (b : BucketM K V) (hrep : RepM hashOf b) (i : Nat) (hi : i < 3)
+    (h : (testSlot key b.slots i).isSome = true) : Gen.topHashMatch (hashOf key) b.word i = true := by
+  have := hrep.2 i hi
+  unfold testSlot at h
+  cases he : b.slots.getD i none with
+  | none => rw [he] at h; simp at h
+  | some kv =>
+    obtain ⟨k, v⟩ := kv
+    rw [he] at h this
+    by_cases hkk : k = key
+    · subst hkk; exact this
+    · simp [hkk] at h
+
+theorem first3_lookup (key : K) (e0 e1 e2 : Option (K × V)) :
+    orE (testSlot key [e0, e1, e2] 0) (orE (testSlot key [e0, e1, e2] 1) (testSlot key [e0, e1, e2] 2)) =
+      lookup key [e0, e1, e2] := by
+  simp only [testSlot, List.getD_cons_zero, List.getD_cons_succ]
+  rcases e0 with _ | ⟨k0, v0⟩ <;> rcases e1 with _ | ⟨k1, v1⟩ <;> rcases e2 with _ | ⟨k2, v2⟩ <;>
+    simp only [lookup, orE_none_left, orE_none_right] <;>
+    (repeat' split) <;> simp_all [orE]
+
+/-- **one bucket of `Map`**: filtering the three slots by `topHashMatch` and comparing keys only where it holds finds
+what the key search finds (a slot holding the key always matches; other matches are rejected by `==` or by nil) -/
+theorem searchBucketM_eq (hashOf : K → BitVec 64) (key : K) (b : BucketM K V) (hrep : RepM hashOf b) :
+    searchBucketM key (hashOf key) b = lookup key b.slots := by
+  have hlen := hrep.1
+  rw [searchBucketM, ite_test _ _ (testM_marked hashOf key b hrep 0 (by omega)),
+    ite_test _ _ (testM_marked hashOf key b hrep 1 (by omega)), ite_test _ _ (testM_marked hashOf key b hrep 2 (by omega))]
+  match hb : b.slots, hlen with
+  | [e0, e1, e2], _ => exact first3_lookup key e0 e1 e2
+
+theorem searchChainM_eq (hashOf : K → BitVec 64) (key : K) (c : List (BucketM K V)) (hrep : ∀ b ∈ c, RepM hashOf b) :
+    searchChainM key (hashOf key) c = lookup key (flatM c) := by
+  induction c with
+  | nil => simp [searchChainM, flatM, lookup]
+  | cons b r ih =>
+    have hb := searchBucketM_eq hashOf key b (hrep b (by simp))
+    have hr := ih (fun x hx => hrep x (by simp [hx]))
+    simp only [searchChainM, flatM, List.flatMap_cons] at hr ⊢
+    rw [lookup_append, hb, hr]
+
 end Proofs.Words
